@@ -59,6 +59,7 @@ type v4cfg struct {
 	gateway   string
 	clients   int
 	hostile   int      // the first `hostile` clients also send the hostile / rare symbols
+	fine      bool     // adds the time steps 59 s and 1 s
 	core      bool     // reduced alphabet (14 symbols for 2 clients) for the deep exhaustive part
 	transport []string // per client: direct | relay | relay82 | mix (per message, random walks only)
 }
@@ -174,8 +175,8 @@ func (w *v4world) classify(v string) string {
 	return ""
 }
 
-func (w *v4world) monitor() *mon      { return w.m }
-func (w *v4world) nsyms() int         { return len(w.syms) }
+func (w *v4world) monitor() *mon        { return w.m }
+func (w *v4world) nsyms() int           { return len(w.syms) }
 func (w *v4world) symName(i int) string { return w.syms[i].name }
 func (w *v4world) close() {
 	w.cancel()
@@ -301,6 +302,10 @@ func (w *v4world) buildSyms() {
 	add("T:lease/2", 4, func() bool { return w.step("T:lease/2", v4Lease/2) })
 	add("T:lease+1ns", 3, func() bool { return w.step("T:lease+1ns", v4Lease+1) })
 	add("T:tick", 4, func() bool { return w.step("T:tick", cleanupGap) })
+	if w.cfg.fine { // sub-minute steps: directed scenarios and random walks only
+		add("T:59s", 1, func() bool { return w.step("T:59s", 59*time.Second) })
+		add("T:1s", 1, func() bool { return w.step("T:1s", time.Second) })
+	}
 }
 
 // ---- messages -------------------------------------------------------------
